@@ -294,14 +294,20 @@ def d7_5(ctx):
         good = len(rets) == 1 and attr_path(rets[0].value) == f"{p}.code"
     ctx.check(good, ckey(tbl.key, "_value_key_"), tbl.attr_nodes.get("_value_key_", tbl.node), "reverse lookup key is the class code", "DataTypes reverse-lookup key is not the type's code")
     gt = tbl.methods.get("get_type")
-    good = False
+    good, bad_codes = False, []
     if gt is not None:
-        p = gt.args.args[1].arg
-        rets = [r for r in walk(gt) if isinstance(r, ast.Return)]
-        if len(rets) == 1 and isinstance(rets[0].value, ast.Call) and attr_path(rets[0].value.func) == "cls.get" and len(rets[0].value.args) == 1:
-            inner = rets[0].value.args[0]
-            good = isinstance(inner, ast.Call) and attr_path(inner.func) == "cls.get" and len(inner.args) == 1 and atom_name(inner.args[0]) == p
-    ctx.check(good, ckey(tbl.key + ".get_type"), gt or tbl.node, "code -> name -> class", "get_type is not cls.get(cls.get(code))")
+        from .common import enum_method_results
+
+        cls_members = {k: v for k, v in ctx.folder.enum_members(tbl).items() if isinstance(v, ClassRef)}
+        by_code = {}
+        for v in cls_members.values():
+            c = ctx.folder.class_attr(v.ci, "code")
+            if isinstance(c, int):
+                by_code.setdefault(c, set()).add(v.ci.name)
+        res, _, _ = enum_method_results(ctx, tbl, gt, sorted(by_code))
+        bad_codes = [f"{c:#04x}" for c in sorted(by_code) if not (isinstance(res[c], ClassRef) and res[c].ci.name in by_code[c])]
+        good = bool(by_code) and not bad_codes
+    ctx.check(good, ckey(tbl.key + ".get_type"), gt or tbl.node, "every type code resolves to a class carrying it (code -> name -> class)", f"get_type does not resolve these type codes to the class of that code: {bad_codes}")
 
 
 @rule(P, "D7.6", "T-LAYOUT", floor=5)
